@@ -5,7 +5,7 @@ let p_zi z = p_int (z_to_int z)
 let p_trace tr = p_list (p_pair (p_list p_nat) (p_mat p_zi)) tr
 let p_c3 ((a, b), c) = ps "["; p_z a; ps ","; p_z b; ps ","; p_z c; ps "]"
 let raise_name = function
-  | 1 -> "ParamError" | 2 -> "NoQuad" | 3 -> "BadPeriod" | 4 -> "CastError" | 5 -> "DealError" | _ -> "?"
+  | 1 -> "ParamError" | 2 -> "NoQuad" | 3 -> "BadPeriod" | 5 -> "DealError" | _ -> "?"
 let dispatch = function
   | "pick4" -> let n = next_nat () in let s = next_list next_z in
       p_opt (p_pair (p_list p_nat) p_nat) (run_pick4 n s)
@@ -15,10 +15,10 @@ let dispatch = function
                ps "["; p_mat p_zi r; ps ","; p_nat eff; ps ","; p_nat rest; ps ","; p_trace tr; ps "]")
             (run_randmio_signed und w itr s)
   | "nm" -> let und = next_bool () in let w = next_mat next_z in
-      let isint = next_bool () in let close = next_bool () in let bs = next_nat () in
+      let close = next_bool () in let bs = next_nat () in
       let wf = next_q () in let pf = next_z () in let ints = next_list next_z in
       let ords = next_mat next_nat in let perms = next_mat next_nat in
-      (match run_null_model und w isint close bs wf pf ints ords perms with
+      (match run_null_model und w close bs wf pf ints ords perms with
        | RunOk (r, corr, wr, tr, (u1, (u2, u3))) ->
            ps "["; p_mat p_zi r; ps ","; p_list p_c3 corr; ps ","; p_mat p_zi wr; ps ",";
            p_trace tr; ps ",["; p_nat u1; ps ","; p_nat u2; ps ","; p_nat u3; ps "]]"
